@@ -1,7 +1,7 @@
 #!/bin/sh
 export VERIF_DIR=$PWD
 cd engine && GOTOOLCHAIN=local GOFLAGS=-mod=mod GOPROXY=off PATH=/opt/veriftools/go1.26.8/bin:$PATH go1.26.8 build -o ../bin/check ./cmd/check && cd ..
-for id in ${THOROUGH_IDS:-C14 C12 C16 C09 C08 C15 C04 C02 C06 C20 C01 C03 C05 C07 C10 C11 C18 C19 C13}; do
+for id in ${THOROUGH_IDS:-C14 C12 C16 C09 C08 C15 C04 C02 C06 C20 C01 C03 C05 C07 C10 C11 C18 C19 C13 C17}; do
   start=$(date +%s)
   timeout 5400 ./bin/check $id --tier thorough > out_$id.txt 2>&1
   echo "$id exit=$? secs=$(( $(date +%s) - start )) $(tail -1 out_$id.txt | cut -c1-200)"
